@@ -175,6 +175,7 @@ def explore(
     seen: dict | None = {} if use_states else None
     stack: list[list[int]] = list(reversed(first_prefixes)) if first_prefixes else [[]]
     stop_at: int | None = None
+    violation_seen = False  # check() returned True at least once
     while stack:
         prefix = stack.pop()
         if max_runs is not None and stats["runs"] >= max_runs:
@@ -191,14 +192,27 @@ def explore(
             obs = None
             pruned = True
             stats["pruned"] += 1
+        except DivergenceError:
+            # A library that already violated the property (e.g. a server whose task group died: asyncio then cancels the sibling tasks
+            # in an order that is not reproducible) may not replay deterministically: the violation in hand stands, the exploration
+            # of this configuration stops.  Without a violation a divergence is a harness fault (INTERNAL).
+            if violation_seen:
+                stats["diverged_after_violation"] = True
+                break
+            raise
         stats["runs"] += 1
         if len(ctx.choices) < len(prefix):
+            if violation_seen:
+                stats["diverged_after_violation"] = True
+                break
             raise DivergenceError(f"execution ended after {len(ctx.choices)} points, prefix has {len(prefix)}")
         stats["points"] += len(ctx.choices) - len(prefix) + (1 if prefix else 0)
         stats["max_depth"] = max(stats["max_depth"], len(ctx.choices))
         if not pruned:
-            if check(ctx, obs) is True and violation_budget is not None and stop_at is None:
-                stop_at = stats["runs"] + violation_budget
+            if check(ctx, obs) is True:
+                violation_seen = True
+                if violation_budget is not None and stop_at is None:
+                    stop_at = stats["runs"] + violation_budget
         # expand alternatives at points after the prefix (those before were expanded by the parent)
         cost = 0
         for i, c in enumerate(ctx.choices):
